@@ -298,10 +298,7 @@ func TestC19Topics(t *testing.T) {
 	rep := vk.NewReport("C19", "C19/topics-store", "E1-bfs")
 	keys := c19Keys()
 	var ops []c19op
-	vals := []string{"x", "y"}
-	if vk.Thorough() {
-		vals = append(vals, "")
-	}
+	vals := []string{"x", "y", ""} // "" is written as an empty non-nil payload
 	for _, k := range keys {
 		for _, v := range vals {
 			ops = append(ops, c19op{"ins", k, v})
